@@ -28,7 +28,7 @@ import (
 //           interp.VerifStepHook; GOMAXPROCS 1/2/16; goroutine counts 2/4/8/32
 //   ref   = the same program compiled by the Go toolchain (goRefBatch); zero race reports
 //   Y, G  = coq/Conc/Model.v: closed forms of every template's output (G) and the set of outcomes the
-//           interpreter's mechanism admits (Y; depends on the select variant read from the source by tr-capture)
+//           interpreter's mechanism accepts (Y; depends on the select variant read from the source by tr-capture)
 
 func init() {
 	register("c08", "C08 concurrency: schedule-independent programs under the race detector, host-concurrent calls, parallel interpreters", runC08)
